@@ -314,7 +314,9 @@ func CompliesStringer(src types.Type) bool {
 		return false
 	}
 
-	obj, _, _ := types.LookupFieldOrMethod(named, false, named.Obj().Pkg(), "String")
+	// Look String up on the type as written: a pointer-typed source also has
+	// the methods declared on the pointer receiver.
+	obj, _, _ := types.LookupFieldOrMethod(src, false, named.Obj().Pkg(), "String")
 	if obj == nil {
 		return false
 	}
